@@ -85,6 +85,12 @@ pub struct HybridCfg {
     pub blocks: usize,
     #[serde(default = "default_block_pages")]
     pub block_pages: usize,
+    /// size of the flusher's io buffer in pages (default 8 blocks)
+    #[serde(default)]
+    pub buffer_pages: Option<usize>,
+    /// padding bytes that do not compress (pseudo-random) instead of one repeated byte
+    #[serde(default)]
+    pub incompressible: bool,
 }
 
 fn default_blocks() -> usize {
@@ -134,6 +140,11 @@ fn loc_of(s: &str) -> Location {
 /// Versions of the entries contained in a block-partition write (independent parser of the entry
 /// format: 36-byte header with magic, then value bytes = HVal, then key bytes; entries page aligned).
 pub fn parse_entries(data: &[u8]) -> Vec<(u64, u64, u64, u64)> {
+    parse_entries_full(data).into_iter().map(|e| (e.0, e.1, e.2, e.3)).collect()
+}
+
+/// ... plus the key and value lengths the header records
+pub fn parse_entries_full(data: &[u8]) -> Vec<(u64, u64, u64, u64, usize, usize)> {
     // (key, version, hash, sequence)
     let mut out = vec![];
     let mut off = 0;
@@ -153,9 +164,12 @@ pub fn parse_entries(data: &[u8]) -> Vec<(u64, u64, u64, u64)> {
         if compression == 0 && v.len() >= 16 {
             let key = u64::from_le_bytes(v[0..8].try_into().unwrap());
             let ver = u64::from_le_bytes(v[8..16].try_into().unwrap());
-            out.push((key, ver, hash, seq));
+            out.push((key, ver, hash, seq, key_len, value_len));
         } else {
-            out.push((u64::MAX, u64::MAX, hash, seq));
+            // compressed payload: the key (stored after the value, uncompressed) still identifies the entry
+            let kb = &data[off + HEADER + value_len..off + HEADER + value_len + key_len];
+            let key = if kb.len() == 8 { u64::from_le_bytes(kb.try_into().unwrap()) } else { u64::MAX };
+            out.push((key, u64::MAX, hash, seq, key_len, value_len));
         }
         let len = HEADER + key_len + value_len;
         off += len.div_ceil(PAGE) * PAGE;
@@ -273,7 +287,7 @@ impl HybridRunner {
             .with_flushers(1)
             .with_reclaimers(1)
             .with_indexer_shards(1)
-            .with_buffer_pool_size(8 * block_size)
+            .with_buffer_pool_size(h.buffer_pages.map(|p| p * PAGE).unwrap_or(8 * block_size))
             .with_tombstone_log(h.tomblog)
             .with_flush_switch(self.switch.clone())
             .with_compression(compression)
@@ -320,10 +334,44 @@ impl HybridRunner {
     }
 
     fn val(&self, k: u64, v: u64) -> HVal {
-        HVal {
-            key: k,
-            ver: v,
-            pad: vec![(v & 0xFF) as u8; self.hcfg.pad],
+        self.val_pad(k, v, self.hcfg.pad)
+    }
+
+    fn val_pad(&self, k: u64, v: u64, pad: usize) -> HVal {
+        let pad = if self.hcfg.incompressible {
+            let mut g = crate::mem::Lcg(v.wrapping_mul(0x9E37) ^ k);
+            (0..pad).map(|_| g.next() as u8).collect()
+        } else {
+            vec![(v & 0xFF) as u8; pad]
+        };
+        HVal { key: k, ver: v, pad }
+    }
+
+    /// (key, version, hash, sequence, key_len, value_len) of every entry in the completed device writes
+    pub fn written_entries(&self) -> Vec<(u64, u64, u64, u64, usize, usize)> {
+        let first = if self.hcfg.tomblog { 1 } else { 0 };
+        let mut out = vec![];
+        for e in self.gate.entries_from(0) {
+            if e.done && e.write && e.partition >= first {
+                if let Some(d) = e.data.as_ref() {
+                    out.extend(parse_entries_full(d));
+                }
+            }
+        }
+        out
+    }
+
+    /// Load k and compare with the value the driver inserted as version `ver` with `pad` bytes of padding:
+    /// (bit-exact equal, miss)
+    pub fn load_exact(&mut self, k: u64, ver: u64, pad: usize) -> (bool, bool) {
+        let expect = self.val_pad(k, ver, pad);
+        let Some(cache) = self.cache.as_ref().cloned() else { return (false, true) };
+        let store = cache.storage().clone();
+        match self.drive(Box::pin(async move { store.load(&k).await })) {
+            Some(Ok(foyer::Load::Entry { key, value, .. })) => (key == k && value == expect, false),
+            Some(Ok(foyer::Load::Piece { piece, .. })) => (*piece.key() == k && *piece.value() == expect, false),
+            Some(Ok(_)) => (false, true),
+            _ => (false, false),
         }
     }
 
@@ -374,8 +422,12 @@ impl HybridRunner {
                 self.nv += 1;
                 let v = self.nv;
                 self.truth.insert(k, v);
+                let val = match op.get("pad").and_then(|x| x.as_u64()) {
+                    Some(p) => self.val_pad(k, v, p as usize),
+                    None => self.val(k, v),
+                };
                 let _g = self.rt.enter();
-                drop(cache.insert_with_properties(k, self.val(k, v), self.props(k)));
+                drop(cache.insert_with_properties(k, val, self.props(k)));
             }
             "rem" => {
                 self.truth.remove(&k);
